@@ -127,7 +127,7 @@ def setup():
     from elementpath import XPathContext
     from elementpath.xpath31 import XPath31Parser
     p = XPath31Parser(namespaces=NS, xsd_version='1.1')
-    root = ET.ElementTree(ET.fromstring(DOC))
+    root = ET.ElementTree(ET.fromstring(DOC, parser=ET.XMLParser(target=ET.TreeBuilder(insert_comments=True, insert_pis=True))))
     objs = {}
     for label, srcs, descs in values():
         for s in srcs:
@@ -160,9 +160,11 @@ def type_class(t):
     return '%s|%s%s' % (head, occ, '|spaced' if ' ' in t.replace(') as ', ')as') and t in SPACED else '')
 
 
-def value_class(descs):
+def value_class(descs, label=''):
     if not descs:
         return 'empty'
+    if len(descs) == 1 and descs[0][0] == 'function':
+        return 'function:' + label.split('{')[0].strip()[:40]
     kinds = sorted(set(d[0] if d[0] != 'node' else 'node:' + d[1] for d in descs))
     return ('pair:' if len(descs) > 1 else '') + '+'.join(kinds)
 
@@ -191,7 +193,7 @@ def run_matching(unit, tier, acc):
             except ST.Unjudged:
                 continue
             case = {'kind': 'matching', 'value': label, 'type': t}
-            sig_tail = '%s|%s' % (value_class(descs), type_class(t))
+            sig_tail = '%s|%s' % (value_class(descs, label), type_class(t))
             r = ev('$v instance of %s' % t, v=val)
             acc.ev()
             acc.cmp()
@@ -274,7 +276,10 @@ def run_subtyping(unit, tier, acc):
                     acc.violation('C18|subtype-relation|not-transitive|%s|%s' % (type_class(s).split('|')[0], type_class(u).split('|')[0]), '%s <= %s <= %s but not %s <= %s' % (s, t, u, s, u), {},
                                   {'kind': 'subtyping'})
             # soundness for matching, against the implementation's own matcher
+            typed_fn = (s.startswith('function(') and ' as ' in s) or (t.startswith('function(') and ' as ' in t)
             for label, srcs, descs in vals:
+                if typed_fn and any(d[0] in ('map', 'array') for d in descs):
+                    continue            # maps and arrays against typed function tests are not judged (see the model)
                 val = [S['objs'][x] for x in srcs]
                 v1 = val if len(val) != 1 else val[0]
                 for ty in (s, t):
